@@ -63,6 +63,12 @@ func genC18Case(t *rapid.T) *C18Case {
 		if rapid.IntRange(0, 2).Draw(t, "perturb") == 0 {
 			s = editOnce(t, s)
 		}
+		if rapid.IntRange(0, 7).Draw(t, "urlMeta") == 0 && s != "" {
+			// characters with a meaning in URLs that the encoded URL carrier can still hold
+			at := rapid.IntRange(0, len([]rune(s))).Draw(t, "metaAt")
+			r := []rune(s)
+			s = string(r[:at]) + rapid.SampledFrom([]string{"#", "?", "#?", "/", ":", "@"}).Draw(t, "meta") + string(r[at:])
+		}
 		b.T, b.Val = desc.Scalar("string"), desc.Str(s)
 	} else {
 		b.T, b.Val = desc.Scalar(kind), genScalar(t, kind, "v", false)
